@@ -4,6 +4,7 @@ import SosModel.Drv.Codec
 import SosModel.Drv.Sync
 import SosModel.Drv.Folder
 import SosModel.Drv.Auth
+import SosModel.Drv.Integrity
 open Sos
 
 /-- State threaded through a session (stateful domains add fields here). -/
@@ -15,6 +16,7 @@ def stepLine (st : DrvState) (line : String) : DrvState × String :=
   let toks := (line.trimAscii.toString.splitOn " ").filter (· ≠ "")
   match toks with
   | "merkle" :: rest => (st, Sos.Drv.Merkle.step rest)
+  | "integrity" :: rest => (st, Sos.Drv.Integrity.step rest)
   | "auth" :: rest => (st, Sos.Drv.Auth.step rest)
   | "folder" :: rest =>
     let (f, o) := Sos.Drv.Folder.step st.folder rest
